@@ -282,3 +282,41 @@ HEAP_HEADERS["C02R"] = ("From CppUVerif Require Import lib.CSem lib.CMem lib.CHe
                         "names are compared as opaque integers that identify their text *)\n"
                         "Inductive rev := RTestsStarted | RTestsEnded | RCountTest | RFilteredOut | RGroupStarted (t : hptr) | RGroupEnded (t : hptr) | "
                         "RTestStarted (t : hptr) | RTestEnded (t : hptr) | RRunOne (t : hptr) (plugins : Z) | RSetRunIgnored (t : hptr).\n")
+
+# ------------------------------------------------------------------ C01: the counters of TestResult, the summary line, the runner's repeat loop and exit value
+TRS = "src/CppUTest/TestResult.cpp"
+TOU = "src/CppUTest/TestOutput.cpp"
+CLR = "src/CppUTest/CommandLineTestRunner.cpp"
+_G01 = [["evs", "list qev"], ["fcounts", "list Z"], ["isfails", "list Z"]]
+_RGET = ["getTestCount", "getRunCount", "getCheckCount", "getFilteredOutCount", "getIgnoredCount", "getFailureCount", "isFailure",
+         "getTotalExecutionTime"]
+_RCNT = ["countTest", "countRun", "countCheck", "countFilteredOut", "countIgnored", "addFailure"]
+_C01R = {n: {"fn": "src_result_" + n, "method": True} for n in _RGET + _RCNT}
+_C01R["addFailure"] = {"fn": "src_result_addFailure", "method": True, "args": []}
+_C01R.update({"printFailure": {"event": "QPrintFailure"}, "print": {"print_event": True}})
+_C01RUN = {"initializeTestRun": {"event": "QInit"}, "getRepeatCount": "repeat", "isListingTestGroupNames": "listing1",
+           "isListingTestGroupAndCaseNames": "listing2", "isListingTestLocations": "listing3", "isReversing": "reversing",
+           "isShuffling": "shuffling", "getShuffleSeed": "seed",
+           "listTestGroupNames": {"event": "QList 1"}, "listTestGroupAndCaseNames": {"event": "QList 2"}, "listTestLocations": {"event": "QList 3"},
+           "reverseTests": {"event": "QReverse"}, "shuffleTests": {"event": "QShuffle {0}", "args": [0]},
+           "printTestRun": {"event": "QPrintTestRun {0} {1}", "args": [0, 1]}, "print": {"print_event": True},
+           "TestResult": {"ctor_event": "QNewResult", "eval_args": []}, "runAllTests": {"event": "QRunAll"},
+           "getFailureCount": {"pop": "fcounts"}, "isFailure": {"pop": "isfails"}}
+_G01RUN = _G01 + [[g, "Z"] for g in ["repeat", "listing1", "listing2", "listing3", "reversing", "shuffling", "seed"]]
+HEAP_RECORDS["C01"] = [["TestResult", TRS], ["TestOutput", TOU]]
+HEAP_GROUPS["C01"] = (
+    [dict(file=TRS, name="TestResult::" + n, coq="src_result_" + n, calls=_C01R, ghosts=_G01) for n in _RGET + _RCNT] +
+    [dict(file=TOU, name="TestOutput::printTestsEnded", **{"class": "TestOutput"}, coq="src_output_printTestsEnded", calls=_C01R, ghosts=_G01)])
+HEAP_RECORDS["C01X"] = []
+HEAP_GROUPS["C01X"] = [dict(file=CLR, name="CommandLineTestRunner::runAllTests", coq="src_runner_runAllTests", calls=_C01RUN, ghosts=_G01RUN)]
+_QEV = ("Inductive qev := PText (s : string) | PNum (n : Z) | QPrintFailure | QInit | QList (k : Z) | QReverse | QShuffle (seed : Z) | "
+        "QPrintTestRun (i n : Z) | QNewResult | QRunAll.\n")
+HEAP_HEADERS["C01"] = ("From CppUVerif Require Import lib.CSem lib.CMem lib.CHeap.\nLocal Open Scope Z_scope.\n"
+                       "(* translated by tools/cxx2heap.py: the counters of TestResult (count..., addFailure, get..., isFailure) and the summary printed by "
+                       "TestOutput::printTestsEnded; the reference member output_ is one opaque cell, print(\"text\") / print(number) are the ghost events "
+                       "PText / PNum, printFailure the event QPrintFailure *)\n" + _QEV)
+HEAP_HEADERS["C01X"] = ("From CppUVerif Require Import lib.CSem lib.CMem lib.CHeap gen.Gen_HeapC01.\nLocal Open Scope Z_scope.\n"
+                        "(* translated by tools/cxx2heap.py: CommandLineTestRunner::runAllTests (list modes, reverse, the repeat loop, the value returned); "
+                        "the parsed arguments are the ghost constants repeat / listing1..3 / reversing / shuffling / seed; the calls on the registry and the "
+                        "output are ghost events; the TestResult of a repetition is not modelled here: its getFailureCount() / isFailure() after the "
+                        "run take the next values of the ghost streams fcounts / isfails *)\n")
